@@ -764,7 +764,8 @@ class Inliner(object):
             return None
         if callee.fq in stack or callee is caller:
             return None
-        if callee.module is not caller.module:
+        if callee.module is not caller.module and not \
+                self._inherited_wrapper(caller, call, callee):
             return None     # only helpers of the same module
         if self.is_vector_helper(callee):
             return None     # interpreted by the normaliser
@@ -807,6 +808,43 @@ class Inliner(object):
             if name not in ('staticmethod', 'classmethod'):
                 return None
         return callee
+
+    def _inherited_wrapper(self, caller, call, callee):
+        """A private wrapper of at most three statements that the caller
+        inherits from a base class defined in another module
+        (`self._put_terminated(..)` of Loader called by Master): its body
+        may be read in the caller when every module-level name it uses is
+        bound by the same import in both modules."""
+        fexpr = call.func
+        if not (isinstance(fexpr, ast.Attribute) and
+                isinstance(fexpr.value, ast.Name) and
+                fexpr.value.id == 'self' and callee.cls is not None and
+                caller.cls is not None and callee.name.startswith('_') and
+                _count_stmts(callee.raw.body) <= 3):
+            return False
+
+        def bindings(mod):
+            out = {}
+            for st in mod.tree.body:
+                if isinstance(st, ast.Import):
+                    for al in st.names:
+                        out[(al.asname or al.name).split('.')[0]] = (
+                            'import', al.name, al.asname)
+                elif isinstance(st, ast.ImportFrom):
+                    for al in st.names:
+                        out[al.asname or al.name] = (
+                            'from', st.module, st.level, al.name)
+            return out
+        here, there = bindings(caller.module), bindings(callee.module)
+        params = set(a.arg for a in callee.raw.args.args)
+        local = _stored_names(callee.raw.body) | params
+        import builtins
+        for sub in ast.walk(callee.raw):
+            if isinstance(sub, ast.Name) and sub.id not in local and \
+                    not hasattr(builtins, sub.id):
+                if sub.id not in there or here.get(sub.id) != there[sub.id]:
+                    return False
+        return True
 
     def unique_method(self, caller, call):
         """`obj.m(..)` on a receiver other than self: the method when the
@@ -942,6 +980,24 @@ class Inliner(object):
         for name in stored:
             if name not in params and name in self.taken:
                 locals_map[name] = '%s__%s' % (tag, name)
+        # T = helper(..) where the helper builds its answer in one local and
+        # returns it at its end: that local *is* T (nothing else of the
+        # helper is called T, the caller handles no exception - so nobody
+        # can see T between the helper's first store and its return)
+        returns = [n for n in ast.walk(raw) if isinstance(n, ast.Return)]
+        if isinstance(result, str) and not cond and len(returns) == 1 and \
+                raw.body and raw.body[-1] is returns[0] and \
+                isinstance(returns[0].value, ast.Name) and \
+                returns[0].value.id in stored and \
+                returns[0].value.id not in params and \
+                result not in stored - {returns[0].value.id} and \
+                result not in params and \
+                not any(isinstance(n, ast.Try) for n in ast.walk(caller.raw)) \
+                and not any(isinstance(n, ast.Name) and n.id == result
+                            for a in list(call.args) + [
+                                k.value for k in call.keywords]
+                            for n in ast.walk(a)):
+            locals_map[returns[0].value.id] = result
         self.taken |= stored
         body = copy.deepcopy(raw.body)
         # drop the docstring
@@ -963,6 +1019,12 @@ class Inliner(object):
             for stmt in body:
                 out = ret.visit(stmt)
                 new_body.extend(out if isinstance(out, list) else [out])
+            # T = T (the answer was built under the target's name)
+            new_body = [st for st in new_body if not (
+                isinstance(st, ast.Assign) and len(st.targets) == 1 and
+                isinstance(st.targets[0], ast.Name) and
+                isinstance(st.value, ast.Name) and
+                st.value.id == st.targets[0].id)]
         if result is not None and _falls_through(raw.body):
             # falling off the end returns None
             new_body.append(ast.copy_location(ast.Assign(
